@@ -120,3 +120,13 @@ MUTANTS["C20"] = [
     ("order_config-sorts-in-place", "annet/annlib/patching.py", "        for row, children in config.items():\n            cmd_direct", "        for row in sorted(config):\n            config.move_to_end(row)\n        for row, children in config.items():\n            cmd_direct"),
     ("mutable-default-cache", "annet/annlib/patching.py", "def make_pre(diff: Diff, _parent_match=None) -> Dict[str, Any]:\n    pre = odict()", "_PRE_CACHE = {}\n\n\ndef make_pre(diff: Diff, _parent_match=None) -> Dict[str, Any]:\n    pre = odict()\n    if _parent_match is None and len(diff) == 1:\n        k = (diff[0][0], diff[0][1])\n        if k in _PRE_CACHE:\n            return _PRE_CACHE[k]\n        _PRE_CACHE[k] = pre"),
 ]
+
+MUTANTS["C04"] = [
+    ("indent-blocks-deep-off", "annet/annlib/tabparser.py", "            else:\n                row = self._indent * _level + row\n            yield row", "            else:\n                row = self._indent * min(_level, 3) + row\n            yield row"),
+    ("juniper-last-row-not-flushed", "annet/annlib/tabparser.py", "            line = new_line\n        if isinstance(line, str):\n            yield line + self._statement_end", "            line = new_line"),
+    ("nokia-split-start-index", "annet/annlib/tabparser.py", "            if line == \"configure\":\n                start = i + 1", "            if line == \"configure\":\n                start = i + 2"),
+    ("stacked-slice", "annet/annlib/tabparser.py", "            stack = stack[:level - 1] + [line]", "            stack = stack[:max(level - 1, 1)] + [line]"),
+    ("ros-groupby-first-only", "annet/annlib/tabparser.py", "            else:\n                for row, _, row_context in row_group:\n                    if context and context.row:", "            else:\n                for row, _, row_context in [next(row_group)]:\n                    if context and context.row:"),
+    ("ros-join-grandparent-path", "annet/annlib/tabparser.py", "                    if context and context.row:\n                        prev_prow, prev_prow_context = context.current\n                        prow = f\"{context.row} {row}\"", "                    if context and context.parent and context.parent.row:\n                        prev_prow, prev_prow_context = context.parent.current\n                        prow = f\"{context.parent.row} {row}\""),
+    ("remove-spaces-eats-leading", "annet/annlib/tabparser.py", 'text = re.sub(r"(?<=\\S)\\ {2,}(?=\\S)", " ", text)', 'text = re.sub(r"\\ {3,}(?=\\S)", " ", text)'),
+]
